@@ -568,8 +568,16 @@ class AtLeastKInARow(_KInARow):
 
         # Request sublists for k+1 to allow us to determine the transition
         sublistss = self._build_variable_sublistss(block, level, self.k + 1)
+        var_lists = block.build_variable_lists(level, self.within_block)
         implications = []
-        for sublists in sublistss:
+        for var_list, sublists in zip(var_lists, sublistss):
+            if not sublists:
+                # The window has at most k trials: a run of k either fills it or cannot fit.
+                if len(var_list) == self.k:
+                    implications.extend(If(v, And(var_list)) for v in var_list)
+                else:
+                    implications.extend(Not(v) for v in var_list)
+                continue
             # Starting corner case
             implications.append(If(sublists[0][0], And(sublists[0][1:-1])))
             for sublist in sublists:
@@ -639,9 +647,16 @@ class ExactlyKInARow(_KInARow):
                                  backend_request: BackendRequest
                                  ) -> None:
         sublistss = self._build_variable_sublistss(block, level, self.k)
+        var_lists = block.build_variable_lists(level, self.within_block)
         implications = []
 
-        for sublists in sublistss:
+        for var_list, sublists in zip(var_lists, sublistss):
+            if not sublists:
+                # The window has fewer than k trials, so a run of k cannot fit.
+                (cnf, new_fresh) = block.cnf_fn(And([Not(v) for v in var_list]), backend_request.fresh)
+                backend_request.cnfs.append(cnf)
+                backend_request.fresh = new_fresh
+                continue
             # Handle the regular cases (1 => 2 ^ ... ^ n ^ ~n+1)
             trim = len(sublists) if self.k > 1 else len(sublists) - 1
             for idx, l in enumerate(sublists[:trim]):
